@@ -132,6 +132,7 @@ def cards(tier):
 
 
 def run(tier, seed, only=None):
+    pool.set_recycle(10)
     rep = Report(
         PID, tier, seed, "exploration",
         rule="cards with spinning final-state particles and >= 2 chains (three-body incl. spin 1/2, two-of-three topologies, two resonances in a slot; four-body: 3 spin sets x combinations of 4 topologies) x "
